@@ -16,6 +16,11 @@ class StateMixin:
             self.user_state = ['assigned', j]
         if big:
             self.user_state = ['big', 's' * big]
+        if ending == 'linger':
+            # the work is over (and gets reported) but the process stays: a thread left behind keeps it
+            import threading
+            threading.Thread(target=time.sleep, args=(3600,)).start()
+            return ['saw', seen]
         if ending == 'raise-unpicklable':
             import threading
             raise ValueError('carries a lock', threading.Lock())
